@@ -22,7 +22,7 @@ P["C08"] = {
    "time.Until/Time.Add/Sub modelled as 64-bit subtraction/addition (no monotonic-clock handling)",
    "strconv.ParseInt executed from its own SSA; fmt.Sprintf(\"%dm\") yields a digit string introduced by constraint (canonical form)"],
  "quick": [c08_parse(n) for n in range(0, 11)] + [job("H_C08_lookup", reach=["has-deadline", "no-deadline"], entries=2, vlen=2),
-            job("H_C08_lookup", reach=["has-deadline", "no-deadline"], entries=1, vlen=3)] + c08_tail,
+            job("H_C08_lookup", reach=["has-deadline", "no-deadline"], entries=1, vlen=3), job("H_selftest_lib", reach=["checked"])] + c08_tail,
  "thorough": [c08_parse(n) for n in range(0, 14)] + [job("H_C08_lookup", reach=["has-deadline", "no-deadline"], entries=2, vlen=3),
             job("H_C08_lookup", reach=["has-deadline", "no-deadline"], entries=3, vlen=2)] + c08_tail,
 }
@@ -171,7 +171,8 @@ P["C12"] = {
  "assumptions": GEN_ASSUME,
  "quick": [job("H_C12_seq", conc=True, reach=["checked"], L=2, first=f) for f in range(14)] +
           [job("H_C12_seq", conc=True, reach=["checked"], L=3, first=7, second=9, third=9, oneid=1, lazy=1), job("H_C12_seq", conc=True, reach=["checked"], L=4, first=7, second=9, third=9, oneid=1, lazy=1),
-           job("H_C12_seq", conc=True, reach=["checked"], L=2, first=7, lazy=1)],
+           job("H_C12_seq", conc=True, reach=["checked"], L=2, first=7, lazy=1)] +
+          [job("H_C12_method", reach=["parsed", "error"], n=n) for n in (1, 3, 5)] + [job("H_C12_method", reach=["error"], n=0), job("H_selftest_lib", reach=["checked"])],
  "thorough": [job("H_C12_seq", conc=True, reach=["checked"], L=3, first=f) for f in range(14)] +
           [job("H_C12_seq", conc=True, reach=["checked"], L=3, first=7, second=9, lazy=1), job("H_C12_seq", conc=True, reach=["checked"], L=4, first=7, second=9, third=9, oneid=1, lazy=1)],
 }
